@@ -56,6 +56,7 @@ type Task struct {
 	HoldAt    int
 	HoldUntil string
 	Steps     int
+	marks     map[string]int
 }
 
 // FaultSpec addresses one fault at one intercepted operation.
@@ -65,6 +66,7 @@ type FaultSpec struct {
 	Kind  string `json:"kind"`            // err, eio, enospc, eacces, torn, crash, crash_after, stall, lost, miss
 	Arg   int64  `json:"arg,omitempty"`   // torn length / stall ms
 	Match string `json:"match,omitempty"` // expected "kind target" substring (divergence check)
+	After string `json:"after,omitempty"` // when set, Op counts from the task's marker of this name (see Sim.Mark)
 	Times int    `json:"times,omitempty"` // sticky: also fail the next Times-1 ops of same kind by that task
 }
 
@@ -259,6 +261,17 @@ func (s *Sim) logEvent(t *Task, kind, target, fault string) {
 	}
 }
 
+// Mark records that the running task passed a named point (without yielding); faults can be
+// addressed relative to it (FaultSpec.After). A repeated marker moves the point.
+func (s *Sim) Mark(name string) {
+	if t := s.cur; t != nil {
+		if t.marks == nil {
+			t.marks = map[string]int{}
+		}
+		t.marks[name] = t.OpCount
+	}
+}
+
 // Note adds a line to the event log without yielding (workload markers, results).
 func (s *Sim) Note(kind, text string) {
 	s.logEvent(s.cur, "note."+kind, text, "")
@@ -376,6 +389,10 @@ func (s *Sim) pickFault(t *Task, kind, target string) *FaultSpec {
 		hit := false
 		if f.Task == "" {
 			hit = f.Op == s.seq
+		} else if f.After != "" {
+			// relative addressing: the Op-th operation after the task passed the named marker
+			base, ok := t.marks[f.After]
+			hit = f.Task == t.Name && ok && f.Op == t.OpCount-base
 		} else {
 			hit = f.Task == t.Name && f.Op == t.OpCount
 		}
